@@ -112,12 +112,12 @@ func failingOp(c c13Case) (obs, bad string) {
 	if err == nil {
 		return obs, ""
 	}
-	if l := leaks(err.Error(), c.Secret, key, accepted); l != "" {
+	if l := leaks(errText(err), c.Secret, key, accepted); l != "" {
 		return obs, "error text discloses " + l
 	}
 	// malformed secrets: the submitted text (>= 8 characters) must not be echoed either
 	st := strings.ToLower(strings.TrimSpace(c.Secret))
-	if len(st) >= 8 && strings.Contains(strings.ToLower(err.Error()), st) {
+	if len(st) >= 8 && strings.Contains(strings.ToLower(errText(err)), st) {
 		return obs, "error text echoes the submitted secret text"
 	}
 	return obs, ""
@@ -230,10 +230,10 @@ func sweepCall(c c13Sweep) (obs, bad string) {
 	if err == nil {
 		return obs, ""
 	}
-	if l := leaks(err.Error(), c.Secret, key, accepted); l != "" {
+	if l := leaks(errText(err), c.Secret, key, accepted); l != "" {
 		return obs, "error text discloses " + l
 	}
-	if st := strings.ToLower(strings.TrimSpace(c.Secret)); len(st) >= 8 && strings.Contains(strings.ToLower(err.Error()), st) {
+	if st := strings.ToLower(strings.TrimSpace(c.Secret)); len(st) >= 8 && strings.Contains(strings.ToLower(errText(err)), st) {
 		return obs, "error text echoes the submitted secret text"
 	}
 	return obs, ""
